@@ -115,6 +115,27 @@ OUT_BORROWED = {"PyArg_ParseTuple"}                 # `&x` arguments receive bor
 INOUT_KEEP = {"PyErr_NormalizeException"}          # `&x` arguments: each variable keeps the one reference it held
 OUT_NEW = {"PyErr_Fetch"}                           # `&x` arguments receive new references (2nd, 3rd may be NULL)
 
+# ---- stale-borrow analysis (crefborrows.py; `bmode`) --------------------------------------
+# Calls that can run arbitrary Python code (TRUSTED).  Deliberately OUT: Py_DECREF / Py_XDECREF / Py_CLEAR (a dealloc
+# can run __del__), and the dictionary operations PyDict_GetItem / SetItem / DelItem / Contains (the keys here are
+# attribute names: exact `str` hashing runs no Python code; a str SUBCLASS with its own __hash__ / __eq__ does).
+ACALL = {
+    "PyObject_Call", "PyObject_CallObject", "PyObject_CallMethod", "PyObject_CallFunction",
+    "PyObject_CallFunctionObjArgs", "PyObject_CallMethodObjArgs", "PyEval_CallObject", "PyObject_CallNoArgs",
+    "PyObject_CallOneArg", "PyObject_GetAttr", "PyObject_GetAttrString", "PyObject_GenericGetAttr",
+    "PyObject_SetAttr", "PyObject_SetAttrString", "PyObject_GenericSetAttr", "PyObject_RichCompare",
+    "PyObject_RichCompareBool", "PyObject_IsInstance", "PyObject_IsSubclass", "PyObject_IsTrue",
+    "PySequence_Contains", "PySequence_List", "PySequence_Tuple", "PyNumber_Index", "PyNumber_Long", "PyNumber_Float",
+    "PyObject_Repr", "PyObject_Str", "PyErr_WarnEx", "PyErr_Format", "PyMapping_Size", "PyFloat_AsDouble",
+    "PyLong_AsLong", "PyDict_Copy",
+}
+ACALL_FIELDS = {"validate", "getattr", "setattr", "post_setattr", "delegate_attr_name", "tp_getattro", "tp_setattro",
+                "tp_call", "tp_new"}
+TUPLE_ITEM = {"PyTuple_GET_ITEM", "PyTuple_GetItem"}          # item lives as long as the (immutable) tuple
+MUTABLE_ITEM = {"PyList_GET_ITEM", "PyList_GetItem", "PyDict_GetItem", "PyDict_GetItemWithError", "dict_getitem"}
+# callee -> field values the caller keeps alive for the whole call; checked against every call site by crefborrows
+CALLER_PROTECTS = {"validate_trait_complex_body": ["trait->py_validate"]}
+
 OBJ_TYPES = {"PyObject", "PyListObject", "PyDictObject", "PyTypeObject", "PyTupleObject", "trait_object",
              "has_traits_object", "a_trait_object"}
 SCALAR_TYPES = {"int", "unsigned", "long", "short", "char", "void", "Py_ssize_t", "size_t", "double", "float",
@@ -500,6 +521,10 @@ class Interp:
         self.fn, self.ret_obj, self.obj_fields = fname, ret_obj, obj_fields
         self.local_kinds = local_kinds or {}
         self.local_calls = set()
+        self.bmode = False            # stale-borrow mode: st.ev carries fborrow / protect / unprotect / acall / use
+        self.acall_locals = set()
+        self.track_params = False     # (bmode, summary runs) parameters count as field-borrowed
+        self.stale_params = {}        # (bmode) callee -> indices of parameters it uses after arbitrary code
         self.locals = set()
         self.stores = set()
         self.body = body
@@ -515,7 +540,27 @@ class Interp:
         return ("ptr", name)
 
     def emit(self, st, name, ev):
+        if self.bmode:
+            if ev == "inc" and self.tracked(st, name):
+                st.ev = st.ev + ((name, "protect"),)
+            elif ev in ("fborrow", "use", "acall", "unprotect", "protect") or ev.startswith("fborrow<"):
+                st.ev = st.ev + ((name, ev),)
+            return
         st.ev = st.ev + ((name, ev),)
+
+    def tracked(self, st, name):
+        return any(a == name and b.startswith("fborrow") for (a, b) in st.ev)
+
+    def buse(self, st, v):
+        """(bmode) value v is used here."""
+        if self.bmode and v[0] == "ptr" and self.tracked(st, v[1]):
+            self.emit(st, v[1], "use")
+
+    def bacall(self, st):
+        """(bmode) a call that can run arbitrary code: cached field contents are forgotten (a later read is a new load)."""
+        self.emit(st, "*", "acall")
+        for k in [k for k in st.env if "->" in k or "." in k]:
+            del st.env[k]
 
     def refine_null(self, st, name):
         st = st.copy()
@@ -644,8 +689,14 @@ class Interp:
             if self.base_is_fresh(st, e) and self.obj_fields.get(e[2]) is True:
                 st.env[key] = NULLV
                 return [(st, NULLV)]
+            if self.bmode:
+                self.buse(st, st.env.get(e[1][1], OPQ) if e[1][0] == "id" else OPQ)
             v = self.fresh(st, key, "unk")
             st.env[key] = v
+            if self.bmode and self.obj_fields.get(e[2]) is True:
+                self.emit(st, v[1], "fborrow")
+                if key in CALLER_PROTECTS.get(self.fn, ()):
+                    self.emit(st, v[1], "protect")
             return [(st, v)]
         if k == "idx":
             return [(s2, OPQ) for (s, _) in self.ev(e[1], st) for (s2, _) in self.ev(e[2], s)]
@@ -768,6 +819,9 @@ class Interp:
             raise Shape("%s: %s of the untracked value %s" % (self.fn, what, text_of(arg)))
         if not x_variant and st.nul.get(v[1]) == "unk":
             st.nul[v[1]] = "nn"
+        if self.bmode and what in ("Py_DECREF", "Py_XDECREF", "Py_CLEAR") and self.tracked(st, v[1]):
+            self.emit(st, v[1], "use")
+            self.emit(st, v[1], "unprotect")
         if what == "Py_CLEAR" and arg[0] == "mem" and self.obj_fields.get(arg[2]) is True:
             self.emit(st, v[1], "take")      # the field is emptied: the struct's reference is released here
         self.emit(st, v[1], {"Py_INCREF": "inc", "Py_XINCREF": "inc", "Py_DECREF": "dec",
@@ -819,6 +873,20 @@ class Interp:
                 raise Shape("%s: address-of in a call to %s" % (self.fn, name or field))
         res = []
         for (s, vs) in self.args_eval(args, st):
+            if self.bmode:
+                s = s.copy()
+                f = e[1]
+                while f[0] == "un" and f[1] == "*":
+                    f = f[2]
+                if f[0] == "mem" and f[1][0] == "id":
+                    self.buse(s, s.env.get(f[1][1], OPQ))        # called through a field of this value
+                for v in vs:
+                    self.buse(s, v)
+                if (name in ACALL) or (field in ACALL_FIELDS) or (name in self.acall_locals):
+                    self.bacall(s)
+                    for i in sorted(self.stale_params.get(name, ())):
+                        if i < len(vs):
+                            self.buse(s, vs[i])          # the callee uses this argument after it ran arbitrary code
             if name in STEAL or name in STORE_MACROS:
                 tbl = STEAL if name in STEAL else STORE_MACROS
                 idxs = tbl[name] if tbl[name] is not None else range(len(vs))
@@ -836,6 +904,11 @@ class Interp:
             elif name in BORROWED:
                 s = s.copy()
                 v = self.fresh(s, name + "()", "nn" if name == "Py_TYPE" else "unk")
+                if self.bmode and vs and vs[0][0] == "ptr":
+                    if name in TUPLE_ITEM and self.tracked(s, vs[0][1]):
+                        self.emit(s, v[1], "fborrow<" + vs[0][1])
+                    elif name in MUTABLE_ITEM:
+                        self.emit(s, v[1], "fborrow")
                 res.append((s, v))
             elif name in ALWAYS_NULL:
                 res.append((s, NULLV))
@@ -866,7 +939,7 @@ class Interp:
                 st.env[k] = ("ptr", new)
         st.nul[new] = st.nul.pop(old)
         st.org[new] = st.org.pop(old)
-        st.ev = tuple((new if a == old else a, b) for (a, b) in st.ev)
+        st.ev = tuple((new if a == old else a, ("fborrow<" + new) if b == "fborrow<" + old else b) for (a, b) in st.ev)
         base = old.split("~")[0]
         st.cnt[base] = st.cnt.get(base, 1) - 1
         if st.cnt[base] <= 0:
@@ -1040,6 +1113,9 @@ class Interp:
                 err = True
             if e[0] != "num" and not (e[0] == "un" and e[2][0] == "num"):
                 txt += "=%d" % v[1]
+        if self.bmode and v[0] == "ptr":
+            st = st.copy()
+            self.buse(st, v)
         if self.ret_obj:
             if v[0] == "ptr":
                 st = st.copy()
@@ -1050,8 +1126,11 @@ class Interp:
 
     def run(self):
         st = St()
+        self.param_order = [p for (p, _) in self.params]
         for (p, is_ptr) in self.params:
             st.env[p] = self.fresh(st, p, "unk") if is_ptr else OPQ
+            if self.bmode and self.track_params and is_ptr:
+                self.emit(st, p, "fborrow")
         self.params = {p for (p, _) in self.params}
         o = self.exec_items(self.body, [st])
         if o.gotos:
@@ -1158,7 +1237,8 @@ def local_kinds_of(src, funcs):
     return kinds
 
 
-def analyse(src, funcs, fields, name, local_kinds=None, want_calls=False):
+def analyse(src, funcs, fields, name, local_kinds=None, want_calls=False, bmode=False, acall_locals=(),
+            track_params=False, stale_params=None, want_params=False):
     hits = [(a, b) for (n, a, b) in funcs if n == name]
     if len(hits) != 1:
         raise Shape("%s: %d definitions found" % (name, len(hits)))
@@ -1170,6 +1250,10 @@ def analyse(src, funcs, fields, name, local_kinds=None, want_calls=False):
         raise Shape("%s: trailing tokens" % name)
     it = Interp(name, ret_obj, params, fields, body, local_kinds)
     it.ret_is_void = ret_void
+    it.bmode = bmode
+    it.acall_locals = set(acall_locals)
+    it.track_params = track_params
+    it.stale_params = stale_params or {}
     rets = it.run()
     raw = len(rets)
     seen, paths = set(), []
@@ -1179,8 +1263,10 @@ def analyse(src, funcs, fields, name, local_kinds=None, want_calls=False):
             seen.add(k)
             paths.append((kind, err, st.ev))
     paths.sort(key=lambda p: (p[0], p[2]))
-    if len(paths) > MAX_PATHS:
+    if len(paths) > (MAX_PATHS if not bmode else 20 * MAX_PATHS):
         raise TooLarge("%s: %d distinct paths (limit %d)" % (name, len(paths), MAX_PATHS))
+    if want_params:
+        return raw, paths, it.param_order
     if want_calls:
         return raw, paths, sorted(it.stores), set(it.local_calls)
     return raw, paths, sorted(it.stores)
